@@ -169,6 +169,13 @@ class Rig:
         self.server = S.HttpServer(self.handlers, "::1", 0)
         self.server.start()
         self.port = self.server._server.server_address[1]
+        # socketserver prints a traceback to stderr when a worker thread dies of an exception (e.g. the client
+        # went away while http.server was writing); keep the check output clean, count them instead
+        self.socketserver_errors = 0
+
+        def handle_error(request, client_address):
+            self.socketserver_errors += 1
+        self.server._server.handle_error = handle_error        # override on the INSTANCE
 
     def close(self):
         try:
@@ -518,6 +525,7 @@ def http_checks(tier, rng, report):
             time.sleep(0.05)
         leaked = threading.active_count() - (rig.base_threads + 1)
         stats["http_worker_threads_left"] = max(0, leaked)
+        stats["http_socketserver_errors_silenced"] = rig.socketserver_errors
         if leaked > 0 and len(failing) < 5:
             failing.append((("threads", b"", False), ["C09:http_worker_threads_left"], [[4], False], None))
         for (case, fi, o, m) in failing[:2]:
